@@ -555,6 +555,56 @@ SO_ = "hiten.algorithms.types.services.orbits"
 SM_ = "hiten.algorithms.types.services.manifold"
 
 
+_REPLAY_CM = """
+import warnings
+warnings.filterwarnings("ignore")
+from hiten import System
+l1 = System.from_bodies("earth", "moon").get_libration_point(1)
+cm = l1.get_center_manifold(4)
+cm.degree = 2                              # the user re-configures the object they were handed
+again = l1.get_center_manifold(4)
+print("get_center_manifold(4).degree =", again.degree)
+print("CONFIRMED" if again.degree != 4 else "NOT-CONFIRMED")
+"""
+
+
+def _handed_out_objects(chk):
+    import hiten.algorithms.types.services.base as sb
+    import hiten.algorithms.types.services.libration as sl
+
+    def th():
+        class CM:
+            def __init__(self, point, degree):
+                self.point, self.degree = point, degree
+        saved = sl.CenterManifold
+        sl.CenterManifold = CM
+        try:
+            cls = sl._LibrationDynamicsService
+
+            class Sv(cls):
+                pass
+            Sv.__abstractmethods__ = frozenset()
+            svc = object.__new__(Sv)
+            sb._DynamicsServiceBase.__init__(svc, "L1")
+            a = cls.center_manifold(svc, 4)
+            if a.degree != 4 or cls.center_manifold(svc, 4) is not a:
+                raise Refuted("center_manifold(4) is not cached / has the wrong degree", str(a.degree))
+            a.degree = 2
+            b = cls.center_manifold(svc, 4)
+            if b.degree != 4:
+                raise Refuted(f"center_manifold(4) returns an object of degree {b.degree} after the previously returned object "
+                              f"was re-configured by its user", "history: cm = get(4); cm.degree = 2; get(4)",
+                              replay=_REPLAY_CM, inputs={"history": ["get(4)", "cm.degree = 2", "get(4)"]})
+            c = cls.center_manifold(svc, 2)
+            if c.degree != 2:
+                raise Refuted("center_manifold(2) has the wrong degree", str(c.degree))
+        finally:
+            sl.CenterManifold = saved
+    chk.obl("center_manifold(d).degree == d after every history, including re-configuration of a previously returned object",
+            "K2 postconditions", ["hiten.algorithms.types.services.libration:_LibrationDynamicsService.center_manifold"],
+            "B4 exact evaluation", th)
+
+
 def _primitives(chk):
     import hiten.algorithms.types.services.base as sb
 
@@ -715,6 +765,7 @@ def run(chk):
     _invalidation_frame(chk)
     _primitives(chk)
     _latest_results(chk)
+    _handed_out_objects(chk)
     if chk.tier == "thorough":
         _io_witness(chk)
 
